@@ -786,6 +786,42 @@ def run(ck: Check):
         if not same:
             ck.violation(dict(clause="repeatable", detector=name, scenario="same-detector-twice"), dict(what="two compare() calls on one detector with the same random_state log different null statistics / p-values", detector=name, spec=spec, X_ref=X.tolist(), X_test=Y.tolist(), p=(float(a["p_value"]), float(b_["p_value"])), null_a=[float(x) for x in a["permuted_statistics"][:6]], null_b=[float(x) for x in b_["permuted_statistics"][:6]]))
 
+    # ---- one callback OBJECT reused for a second detector (the first one is done with): the null distribution of the
+    # second detector must be built with the second detector's statistic and parameters (own generator)
+    import random as _random
+    from frouros.callbacks.batch import PermutationTestDistanceBased as _PT
+
+    prng = _random.Random(131313)
+    pairs = [("PSI", dict(num_bins=8), "HellingerDistance", dict(num_bins=5)), ("EMD", dict(), "EnergyDistance", dict()), ("HellingerDistance", dict(num_bins=4), "PSI", dict(num_bins=9))]
+    for na, kwa, nb_, kwb in (pairs if thorough else pairs[:2]):
+        X = np.array([prng.gauss(0, 1) for _ in range(14)])
+        Y = np.array([prng.gauss(0.7, 1.3) for _ in range(11)])
+        rs = prng.randrange(1, 1000)
+        try:
+            cb = _PT(num_permutations=12, random_state=rs, name="perm")
+            d1 = det_class(na)(callbacks=[cb], **kwa)
+            d1.fit(X=X)
+            d1.compare(X=Y)
+            d2 = det_class(nb_)(callbacks=[cb], **kwb)
+            d2.fit(X=X)
+            res2, l2 = d2.compare(X=Y)
+            import copy as _copy
+
+            l2 = _copy.deepcopy(l2["perm"])
+            cbf = _PT(num_permutations=12, random_state=rs, name="perm")
+            d3 = det_class(nb_)(callbacks=[cbf], **kwb)
+            d3.fit(X=X)
+            res3, l3 = d3.compare(X=Y)
+            l3 = l3["perm"]
+        except Exception as e:  # noqa: BLE001
+            ck.violation(dict(clause="raises", scenario="callback-reused", detector=nb_), dict(first=na, second=nb_, error=repr(e), X_ref=X.tolist(), X_test=Y.tolist()))
+            continue
+        ck.case(dict(kind="callback-reused", first=na, second=nb_), nontrivial=True, key=repr(("reused", na, nb_, X.tolist())))
+        ck.count("callback_reused_cases")
+        same = eqf(float(l2["observed_statistic"]), float(l3["observed_statistic"])) and eqf(float(l2["p_value"]), float(l3["p_value"])) and len(l2["permuted_statistics"]) == len(l3["permuted_statistics"]) and all(eqf(float(x), float(y)) for x, y in zip(l2["permuted_statistics"], l3["permuted_statistics"]))
+        if not same:
+            ck.violation(dict(clause="own-parameters", scenario="callback-reused", detector=nb_), dict(what="a permutation callback used with one detector and then attached to another builds the second detector's null distribution differently from a new callback", first=na, first_args=kwa, second=nb_, second_args=kwb, random_state=rs, X_ref=X.tolist(), X_test=Y.tolist(), p_reused=float(l2["p_value"]), p_new=float(l3["p_value"]), null_reused=[float(x) for x in l2["permuted_statistics"][:6]], null_new=[float(x) for x in l3["permuted_statistics"][:6]]))
+
     # ---- D
     ck.rule("D: num_jobs in {1,2,3} (and -1 once per detector in thorough) and a repeated run, fixed random_state (0 over-represented: a legal seed), the global generator left in a different state before every run: observed, every null statistic and the p-value must be identical")
     for name in ALL:
